@@ -34,8 +34,8 @@ Theorem C08_sound : forall lhash kw ch code atok t now d i c,
   (exists exp iat, assoc (PS "exp") d = Some (VInt exp) /\ assoc (PS "iat") d = Some (VInt iat) /\
                    (now - eff_skew kw <= exp)%Z /\ (iat <= now + eff_skew kw)%Z /\
                    (now - eff_skew kw <= iat + eff_storage kw)%Z /\ (iat <= exp)%Z) /\
-  (* 6 a nonce claim, if present, equals the nonce argument *)
-  (forall n v, kw_nonce kw = Some n -> assoc (PS "nonce") d = Some v -> v = VStr n) /\
+  (* 6 the nonce argument, when given, is present in the token and equal *)
+  (forall n, kw_nonce kw = Some n -> assoc (PS "nonce") d = Some (VStr n)) /\
   (* 7 delivered by the authorization endpoint with a code / access token: c_hash / at_hash match *)
   (ch = true -> t_alg t <> PS "none" ->
      (forall x, code = Some x -> assoc (PS "c_hash") d = Some (VStr (lhash (hash_bits (t_alg t)) x))) /\
@@ -136,15 +136,14 @@ Example C08_unsigned_hash_refuted :
     assoc (verified_name (PS "id_token")) stored = Some (VDict vd) /\ assoc (PS "c_hash") vd = None.
 Proof. vm_compute. do 3 eexists. repeat split; reflexivity. Qed.
 
-(* Remark (message API only): IdToken.verify(nonce = N) accepts a token that has no nonce claim; the service
-   layer closes this (C08_authorization_service, C08_token_service). *)
-Example C08_msgapi_nonce_absent_refuted :
+(* IdToken.verify(nonce = N) refuses a token that has no nonce claim *)
+Example C08_msgapi_nonce_absent_refused :
   let kw := mkKw (Some ex_iss) (Some ex_cid) None None false (Some 0%Z) None false (Some (PS "N1")) ex_jar in
   let t := mkTok (PS "RS256") (Some (PS "r1")) (Some 0%nat)
                  [(PS "iss", VStr ex_iss); (PS "sub", VStr (PS "diana")); (PS "aud", VList [VStr ex_cid]);
                   (PS "exp", VInt 1700000300); (PS "iat", VInt 1699999995)] in
-  exists d, verify_id_token ex_lhash kw false None None t ex_now = Ok d /\ assoc (PS "nonce") d = None.
-Proof. vm_compute. eexists. split; reflexivity. Qed.
+  verify_id_token ex_lhash kw false None None t ex_now = Err E_MissingRequiredAttribute.
+Proof. vm_compute. reflexivity. Qed.
 
 (* Unforgeability (symbolic, Lib/Crypto.v): if no key of the jar is ever published, the signature / MAC of
    an accepted signed token is a term the honest parties published. *)
